@@ -121,7 +121,7 @@ def oracle(case, impl):
                 bad.append('parse of %r panicked' % bytes.fromhex(t[1] if t[1] != '-' else '').decode('utf-8'))
             elif out.startswith('ok'):
                 v = int(out.split()[1])
-                if not valid(v): bad.append('%s: parser returned an invalid timestamp %d' % (line, v))
+                if not 0 <= v < 2 ** 64: bad.append('%s: parser returned something that is not a 64-bit timestamp: %d' % (line, v))
         elif t[0] == 'rt':
             v = int(t[1])
             if valid(v) and out != 'ok %d' % v:
